@@ -40,7 +40,7 @@ def _w_list_then_text(rng):
 WARNINGS += [("missing-newline", _w_long_list), ("label-fixup", _w_far_fixup), ("missing-newline", _w_wide_line), ("missing-newline", _w_list_then_text)]
 W_NAMES = ["all", "default", "no-all", "no-default", "implicit-operand", "no-implicit-operand", "legacy-deferred", "no-excess-hash",
            "missing-newline", "no-label-fixup", "suspicious-name", "bogus-name", "excess-quote"]
-FILL = ["nop", "mov #1, r0", "inc r2", ".word 1, 2", "clr (r3)+", "k%d = 5", "l%d: dec r1"]
+FILL = ["nop", "mov #1, r0", "inc r2", ".word 1, 2", "clr (r3)+", "k%d = 5", "l%d: dec r1", "msg.text%d: .word 7", "buf.end%d = 177", "q$.%d:: nop"]
 
 # faults that need a second file or change the layout of the program text are left to C17
 SKIP = {"include-missing", "insert-missing", "odd-word", "duplicate-label", "second-link"}
